@@ -184,3 +184,34 @@ Proof.
     destruct (exec_member _ (CancelAwait t g st) s); congruence.
   - apply env_with_ok; [exact Hl|]. cbn [forallb]. now rewrite Hok.
 Qed.
+
+(* ---- the ledger: a procedure that completed has left no task of a joined slot running ------------------ *)
+Lemma continue_means_ended r stp t s :
+  step_slot stp = Some t -> exec_member r stp s = Continue -> ended (task_after r stp s) = true.
+Proof.
+  intros Ht H. destruct stp as [t' g st|t' g st|tag|tag]; cbn in Ht; try discriminate.
+  - cbn [exec_member task_after] in *. destruct (is_done s) eqn:Hd; [reflexivity|].
+    rewrite andb_false_r in H. destruct (after_cancel r s); try reflexivity.
+    destruct st; discriminate.
+  - cbn [task_after]. destruct (is_done s); reflexivity.
+Qed.
+
+Lemma members_continue_all_ended r stp t : step_slot stp = Some t -> forall ms,
+  exec_members r stp ms = Continue -> forallb (fun s => ended (task_after r stp s)) ms = true.
+Proof.
+  intros Ht. induction ms as [|s ms IH]; cbn [exec_members forallb]; intros H; [reflexivity|].
+  destruct (exec_member r stp s) eqn:E; try discriminate.
+  rewrite (continue_means_ended _ _ _ _ Ht E). cbn. auto.
+Qed.
+
+Theorem completed_leaves_joined_tasks_ended slots env : forall prog k,
+  run_from k slots env prog = Completed ->
+  forall stp t, In stp prog -> step_slot stp = Some t ->
+    forallb (fun s => ended (task_after (s_routine (nth t slots default_slot)) stp s)) (nth t env []) = true.
+Proof.
+  induction prog as [|stp0 prog IH]; intros k H stp t Hin Ht; [destruct Hin|].
+  cbn [run_from] in H. destruct (exec_step slots env stp0) eqn:E; try discriminate.
+  destruct Hin as [->|Hin].
+  - unfold exec_step in E. rewrite Ht in E. eapply members_continue_all_ended; eauto.
+  - eapply IH; eauto.
+Qed.
